@@ -102,7 +102,11 @@ def stringvalue(string):
     return string.replace('\\' + string[0], string[0])[1:-1]
 
 
-_match_forbidden_in_uri = re.compile(r'''.*?[\(\)\s\;,'"]''', re.U).match
+# characters that cannot be written in an unquoted url(): the delimiters, white
+# space and the control characters (incl. DEL) the URI token does not allow
+_match_forbidden_in_uri = re.compile(
+    r'''.*?[\(\)\s\;,'"\x00-\x08\x0e-\x1f\x7f]''', re.U | re.S
+).match
 
 
 def uri(value):
